@@ -149,8 +149,8 @@ COMMANDS = {
     ),
     "gpTranslationTableClear": (
         0x010B,
-        (),
-        (),
+        {},
+        {},
     ),
     "importKey": (
         0x0115,
